@@ -193,3 +193,13 @@ def val(d):
 
 def is32(d):
     return isinstance(d, dict) and d["pack"] == "np.float32"
+
+
+def same_tangent(p_img, v_img, p, v, tol=1e-7):
+    """(p_img, v_img) is the tangent vector (p, v) up to positive scalings and ONE common sign:
+    a tangent vector is the class of (x, v) under (x, v) ~ (-x, -v)"""
+    p_img, p = np.asarray(p_img, float), np.asarray(p, float)
+    if not proj_equal(p_img, p, tol):
+        return False
+    sg = 1.0 if float(np.dot(p_img, p)) > 0 else -1.0
+    return parallel_pos(sg * np.asarray(v_img, float), v, tol)
